@@ -93,6 +93,18 @@ Theorem C03_self_dereg_nonblocking : forall (progs bods : list prog) (sched : li
 Proof. exact self_dereg_nonblocking. Qed.
 Print Assumptions C03_self_dereg_nonblocking.
 
+(* self-destruction from inside the INLINE execution (registration after the stop), on any thread:
+   returns at once without touching the source *)
+Theorem C03_inline_self_dereg_nonblocking : forall (progs bods : list prog) (sched : list nat),
+  let s := fst (run step sched (init progs bods, [])) in
+  forall t c k oc k' rest,
+    In (FRun (Some c) k) (thr s t) -> cst (cbs s c) = CInl -> dst (cbs s c) = DNone ->
+    thr s t = FRun oc (IDereg c :: k') :: rest ->
+    exists s', step t s = Some (s', [(t, EDeregBegin c); (t, EDeregRet c)]) /\
+               thr s' t = FRun oc k' :: rest /\ locked s' = locked s /\ lst s' = lst s.
+Proof. exact inline_self_dereg_nonblocking. Qed.
+Print Assumptions C03_inline_self_dereg_nonblocking.
+
 Theorem C03_no_dangling : forall (progs bods : list prog) (sched : list nat) (c t : nat),
   let s := fst (run step sched (init progs bods, [])) in
   dst (cbs s c) = DDone t -> ~ In c (lst s).
@@ -197,3 +209,16 @@ Example C03_example_wf :
   wf [[IReg 0; IReg 1; IReg 2]; [IWait 2; IReqStop; IDereg 2]; [IWait 2; IDereg 1]]
      [[]; [IStopReq]; [IDereg 0]].
 Proof. apply wfb_wf. vm_compute. reflexivity. Qed.
+
+(* thread 1 requests stop; thread 0 then registers callback 0, which runs inline on thread 0 (not
+   the notifying thread) and destroys its own registration from inside: no access to the source *)
+Example C03_example_inline_self_dereg :
+  let progs := [[IReg 0]; [IReqStop]] in
+  let bods := [[IDereg 0; IStopReq]] in
+  let c := run step [1; 1; 0; 0; 0; 0] (init progs bods, []) in
+  finished (fst c) 0 = true /\ finished (fst c) 1 = true /\
+  cb_summary (fst c) 0 = (CInl, XEnded, DDone 0, false) /\
+  snd c = [(1, EAcq true 0 3); (1, ERel 1); (1, ERsRet false);
+           (0, EObs false 1); (0, EExec 0); (0, EDeregBegin 0); (0, EDeregRet 0);
+           (0, EObs true 1); (0, EEnd 0)].
+Proof. vm_compute. repeat split; reflexivity. Qed.
